@@ -959,7 +959,30 @@ def one_history(ctx, r, nops, out):
             return
         after = state(cqm)
         tgt = ns['new'] if (try_new and outcome == 'ok') else cqm
-        out.append(dict(line=line, expect=f'{outcome} {state(tgt)}', k=k, hist=tuple(hist)))
+        srcs = ''
+        if k in ('objm', 'conm', 'conc', 'discm', 'discc'):
+            # what is left of the model object that was handed over (copy=False moves it into the CQM and clears it)
+            _m = ns['_m']
+            srcs = f' src={_m.num_variables}:{rat(_m.offset)}:{_m.num_interactions}'
+            moved = k != 'objm' and not cp
+            left = describe(_m)
+            if outcome == 'ok' and moved:
+                oksrc = _m.num_variables == 0 and _m.num_interactions == 0 and _m.offset == 0
+                wsrc = 'empty (moved into the CQM)'
+            elif outcome == 'ok' or after == before:
+                oksrc = left == md
+                wsrc = 'unchanged'
+            else:
+                oksrc = True      # raised after the constraint was added (reported as a changed model below)
+                wsrc = ''
+            if not oksrc:
+                ctx.fail('property', classify(k, line, ref, None), 'source model after the call',
+                         f'after `{code.splitlines()[-1]}` ({outcome}) the model handed over should be {wsrc}; it has '
+                         f'{_m.num_variables} variables, {_m.num_interactions} interactions, offset {_m.offset}',
+                         repro=repro_unexpected(hist) + f'print(_m.num_variables, _m.num_interactions, _m.offset)  # expected: {wsrc}\n',
+                         detail=dict(history=list(hist)))
+                return
+        out.append(dict(line=line, expect=f'{outcome} {state(tgt)}{srcs}', k=k, hist=tuple(hist)))
         shown = state(tgt, canon=True)
         ctx.tick(k + ('' if outcome == 'ok' else ':raises'))
         # ---- run on the specification
